@@ -97,7 +97,7 @@ def describe_key(vm, k, model):
 def str_of(s, ev):
     if isinstance(s, SymStr):
         t = ev(s.term)
-        return t.as_string() if z3.is_string_value(t) else str(t)
+        return zstr(t) if z3.is_string_value(t) else str(t)
     if isinstance(s, BStr):
         return ''.join(chr(c if isinstance(c, int) else ev(c).as_long()) for c in s.chars())
     return repr(s)
